@@ -4,8 +4,31 @@
 // canary fill for bytes beyond the returned length.
 #include "vrt.h"
 #include "vrt_alloc.h"
+// Runs before any dynamically initialised namespace-scope object defined later in this translation unit - the library's own,
+// should it have any: the decoders are used from another object's static initialiser, and must answer as they do later.
+struct EarlyInit { EarlyInit(); };
+static EarlyInit g_early_init;
 #include "vrt_st.h"
 #include "gen_text.h"
+
+static long g_early[12];
+static char g_early_out[8];
+EarlyInit::EarlyInit()
+{
+    const ST::string good_hex("4a6F"), bad_hex("zz"), bad_hex2("4 "), good_b64("SGk="), bad_b64("S*k=");
+    g_early[0] = static_cast<long>(ST::hex_decode(good_hex, g_early_out, sizeof(g_early_out)));
+    g_early[1] = (static_cast<unsigned char>(g_early_out[0]) << 8) | static_cast<unsigned char>(g_early_out[1]);
+    g_early[2] = static_cast<long>(ST::hex_decode(bad_hex, g_early_out + 4, 4));
+    g_early[3] = static_cast<long>(ST::hex_decode(bad_hex2, nullptr, 0)) == 1 ? static_cast<long>(ST::hex_decode(bad_hex2, g_early_out + 4, 4)) : -2;
+    g_early[4] = static_cast<long>(ST::base64_decode(good_b64, g_early_out + 4, 4));
+    g_early[5] = (static_cast<unsigned char>(g_early_out[4]) << 8) | static_cast<unsigned char>(g_early_out[5]);
+    g_early[6] = static_cast<long>(ST::base64_decode(bad_b64, g_early_out + 4, 4));
+    try { (void)ST::hex_decode(bad_hex); g_early[7] = 0; } catch (const ST::codec_error &) { g_early[7] = 1; }
+    try { ST::char_buffer b = ST::base64_decode(good_b64); g_early[8] = static_cast<long>(b.size()); } catch (const ST::codec_error &) { g_early[8] = -1; }
+    const ST::string h = ST::hex_encode("\x4a\x6f", 2), b = ST::base64_encode("Hi", 2);
+    g_early[9] = h == ST::string("4a6f");
+    g_early[10] = b == ST::string("SGk=");
+}
 
 using vrt::Rng;
 using vrt::sfmt;
@@ -408,6 +431,19 @@ static void c15_body()
 
 static void body()
 {
+    vrt::require("static_init.checks", 11);
+    vrt::phase("static_initialisation", 1, [&](uint64_t, Rng &) {
+        static const long want[11] = {2, 0x4a6f, -1, -1, 2, 0x4869, -1, 1, 2, 1, 1};
+        static const char *const what[11] = {"hex_decode(valid) length", "hex_decode(valid) bytes", "hex_decode(\"zz\")", "hex_decode(\"4 \")", "base64_decode(valid) length", "base64_decode(valid) bytes",
+                                             "base64_decode(\"S*k=\")", "hex_decode(\"zz\") throws", "base64_decode(valid) allocating", "hex_encode", "base64_encode"};
+        for (int k = 0; k < 11; ++k) {
+            vrt::evals();
+            vrt::count("static_init.checks");
+            if (g_early[k] != want[k])
+                vrt::violation(sfmt("%s:called-during-static-initialisation:%s", vrt::is_prop("C14") ? "C14" : "C15", what[k]), sfmt("got %ld, want %ld", g_early[k], want[k]));
+        }
+    });
+
     if (vrt::is_prop("C15")) { PROP = "C15"; c15_body(); }
     else c14_body();
     vrt::alloc::check_pairing("codec");
